@@ -9,6 +9,7 @@ from typing import Any
 PROPERTY_PROFILE = {
     "C18": "crash",
     "C19": "race",
+    "C20": "patch",
     "C03": "ctx",
     "C04": "dml",
     "C05": "cursor",
